@@ -3,6 +3,7 @@ CONSTANTS
   NCallers = 3
   RecyclesWrappers = FALSE
   SharedDefaults = FALSE
+  SharedCloser = FALSE
   OnceIsNilCheck = FALSE
   Ns = {2, 3}
 CHECK_DEADLOCK FALSE
